@@ -125,6 +125,14 @@ Definition mdns_state := (pstate * nat)%type.
 Definition mdns_state_eqb (a b : mdns_state) : bool :=
   pstate_eqb (fst a) (fst b) && Nat.eqb (snd a) (snd b).
 
+(* the #20 repair: skip() skips in the section being parsed (SkipAnswer / SkipAuthority /
+   SkipAdditional) and its error ends the processing *)
+Definition mdns_skip (m : dmsg) (st : pstate) (sec : nat) : lstep mdns_state unit :=
+  match skip_resource m st sec with
+  | (_, Some _) => Stop (Err EOther)
+  | (st', None) => Cont (st', sec)
+  end.
+
 Definition mdns_step (m : dmsg) (x : mdns_state) : lstep mdns_state unit :=
   let (st, sec) := x in
   match resource_header m st sec with
@@ -141,10 +149,10 @@ Definition mdns_step (m : dmsg) (x : mdns_state) : lstep mdns_state unit :=
         end
       else if (t =? ty_PTR) || (t =? ty_SRV) || (t =? ty_TXT) || (t =? ty_OPT) then
         match typed_resource m st1 t with
-        | (st2, Some _) => Cont (fst (skip_resource m st2 secAnswers), sec)  (* p.SkipAnswer(); continue *)
+        | (st2, Some _) => mdns_skip m st2 sec     (* if err := skip(); err != nil { return }; continue *)
         | (st2, None) => Cont (st2, sec)
         end
-      else Cont (fst (skip_resource m st1 secAnswers), sec)   (* NSEC / default: p.SkipAnswer() *)
+      else mdns_skip m st1 sec                       (* NSEC / default *)
   end.
 
 Definition process_mdns (fuel : nat) (m : dmsg) : res unit :=
@@ -152,16 +160,6 @@ Definition process_mdns (fuel : nat) (m : dmsg) : res unit :=
   else if negb (m_response m) then Ok tt     (* query: AllQuestions, errors ignored *)
   else if negb (m_skipq_ok m) then Err EOther
   else iter (mdns_step m) fuel (start_state, secAnswers).
-
-(* known defect classes: the walk reaches a loop iteration that changes nothing *)
-Inductive mdns_class := MNone | MOutsideAnswers | MSkipFailed.
-Definition known_C08_mdns (m : dmsg) : mdns_class :=
-  if m_start_ok m && m_response m && m_skipq_ok m then
-    match spins (mdns_step m) mdns_state_eqb (2 * List.length (m_recs m) + 8) (start_state, secAnswers) with
-    | None => MNone
-    | Some (_, sec) => if Nat.eqb sec secAnswers then MSkipFailed else MOutsideAnswers
-    end
-  else MNone.
 
 (* ---------------------------------------------------------------- *)
 (* NBNS: parseNodeNameArray (nbns.go:172), processNBNSNodeStatusResponse (:213), loop (:238) *)
@@ -205,7 +203,11 @@ Definition nbns_step (m : dmsg) (st : pstate) : lstep pstate unit :=
             | _ => Cont st2
             end
         end
-      else Cont st1     (* 0x20 and default: nothing consumed *)
+      else                (* 0x20 and default (#19 repair): if err := p.SkipAnswer(); err != nil { return } *)
+        match skip_resource m st1 secAnswers with
+        | (_, Some _) => Stop (Err EOther)
+        | (st2, None) => Cont st2
+        end
   end.
 
 Definition process_nbns (fuel : nat) (valid : bool) (m : dmsg) : res unit :=
@@ -215,12 +217,3 @@ Definition process_nbns (fuel : nat) (valid : bool) (m : dmsg) : res unit :=
   else if negb (m_skipq_ok m) then Err EOther
   else iter (nbns_step m) fuel start_state.
 
-Inductive nbns_class := NNone | NNotSkipped.
-(* the answer walk reaches a record with a parseable header that is not a node status answer *)
-Definition known_C08_nbns (valid : bool) (m : dmsg) : nbns_class :=
-  if valid && m_start_ok m && m_response m && m_skipq_ok m then
-    match spins (nbns_step m) pstate_eqb (2 * List.length (m_recs m) + 4) start_state with
-    | Some _ => NNotSkipped
-    | None => NNone
-    end
-  else NNone.
